@@ -728,3 +728,21 @@ def show(v, model=None):
             return {"dict": out}
         return "dict"
     return repr(v)
+
+
+def tuple_key(es):
+    """hashable tuple of leaves as a container key: injective constructor"""
+    f = z3.Function("tuplekey" + "_".join(str(e.sort()) for e in es), *[e.sort() for e in es], OpaqueS)
+    return f(*es)
+
+
+def tuple_key_axioms(sorts):
+    """injectivity of tuple_key for the given component sorts (projection functions)"""
+    f = z3.Function("tuplekey" + "_".join(str(s) for s in sorts), *sorts, OpaqueS)
+    xs = [z3.Const(f"tk{i}", s) for i, s in enumerate(sorts)]
+    t = f(*xs)
+    projs = [z3.Function(f"tuplekey{i}of{len(sorts)}" + "_".join(str(s) for s in sorts), OpaqueS, s) for i, s in enumerate(sorts)]
+    return [z3.ForAll(xs, And(*[p(t) == x for p, x in zip(projs, xs)]), patterns=[t])], projs
+
+
+WORLD = SRef(z3.IntVal(-1), None)  # the "world" object: ghost global state and mutable module-level variables
